@@ -288,12 +288,11 @@ def no_hidden_state_check(module_names, what):
     """Builds an EXTRA_CHECKS entry: effect obligations decided on the ASTs of the named repository modules (complete for
     what they state, re-derived from the current sources on every run).  Every function / method defined there keeps no
     state between calls other than fields of the objects it is given:
-      no-decorator     its `def` carries only structural decorators (property, staticmethod, classmethod, abstractmethod,
-                       setters) or decorators defined in the same repository module (ordinary code that the engine executes);
-                       a memoising / wrapping decorator from a library - functools.lru_cache, functools.cache - makes results
-                       depend on earlier calls and on `==` / `hash` of the arguments instead of the argument objects, and
-                       the engine, which inlines helper bodies, would not see it.  Parameterless functions are exempt (a
-                       cached constant).
+      no-decorator     its `def` carries no argument-keyed cache (functools.lru_cache, functools.cache, anything named
+                       *memoize*): such a decorator makes results depend on earlier calls and on `==` / `hash` of the
+                       arguments instead of the argument objects, and the engine, which inlines helper bodies, would not see
+                       it.  Parameterless functions are exempt (a cached constant); structural decorators and decorators
+                       defined in the same module are ordinary code; other foreign decorators are listed, not judged.
       no-module-state  no `global` / `nonlocal` statement, no store into (attribute, item, augmented assignment) and no
                        mutating method call (append, add, update, setdefault, pop, ...) on a module-level name."""
     STRUCTURAL = {"property", "staticmethod", "classmethod", "abc.abstractmethod", "abstractmethod", "typing.overload",
@@ -303,6 +302,7 @@ def no_hidden_state_check(module_names, what):
 
     def check(eng, tier, seed):
         import ast
+        import re
 
         obs = []
         for mn in module_names:
@@ -326,11 +326,16 @@ def no_hidden_state_check(module_names, what):
                     root = d.split("(")[0].split(".")[0]
                     return root in defined_here
 
-                extra = [d for d in fi.decorators if d not in STRUCTURAL and not d.endswith(".setter") and not own(d)]
+                foreign = [d for d in fi.decorators if d not in STRUCTURAL and not d.endswith(".setter") and not own(d)]
+                # what makes a result depend on earlier calls is a cache keyed by the ARGUMENTS (== / hash of the arguments
+                # instead of the argument objects): functools.lru_cache / functools.cache and anything named like them;
+                # any other foreign decorator is not judged here (listed; an assumption, not a violation)
+                extra = [d for d in foreign if re.search(r"(^|[._])(lru_cache|cache|memoi[sz]e[d]?)$", d.split("(")[0])]
                 if nparams == 0:
                     extra = []
                 obs.append({"name": "%s/effect#no-decorator" % short, "ok": not extra, "function": q,
-                            "detail": "decorated with %s" % extra if extra else ""})
+                            "detail": ("decorated with %s" % extra) if extra else
+                                      (("foreign decorators assumed stateless: %s" % foreign) if foreign and nparams else "")})
                 bad = []
                 local = {a.arg for a in fi.node.args.args + fi.node.args.kwonlyargs + fi.node.args.posonlyargs}
                 for node in ast.walk(fi.node):
